@@ -42,6 +42,10 @@ Section Model.
   Fixpoint sumn (f : nat -> F) (a n : nat) : F :=
     match n with O => n0 | S n' => nadd (f a) (sumn f (S a) n') end.
 
+  (* BSplineBasis.greville(i): knot average *)
+  Definition greville (k : list F) (p i : nat) : F :=
+    ndiv (sumn (kn k) (S i) (p - 1)) (nofnat (p - 1)).
+
   (* The property's own reading of a dense evaluation row: column c is the sum of
      all (wrapped) images i = c (mod n) of the r-th derivative of B-spline i. *)
   Definition ref_row (side : bool) (k : list F) (p per1 d : nat) (t : F) : list F :=
